@@ -427,7 +427,46 @@ def grpcCallsOf : Nat → Fields → List (List String) → Option (List (GrpcCa
     pure ((({ tag := tag, kind := k, asserts := asserts } : GrpcCallCfg), reply) :: tl)
   | _, _, _ => none
 
+/-- tokens of `sched=<ops>x<ms>` (`rps: [{type: const, ops, duration: <ms>ms}]`) -/
+def tokensOf (kv : List (String × String)) : Option Nat :=
+  match (getS kv "sched").splitOn "x" with
+  | [a, b] => do pure ((← a.toNat?) * (← b.toNat?) / 1000)
+  | _ => none
+
+/-- a run on a timed schedule with `discard_overflow: true` (round 4): WHICH tokens the instance finds overdue is decided
+by the clock, so nothing is predicted; the Spec judges Engine.Run's result, one sample (or the samples of a shot) per
+token, what the `discarded` samples carry, and — for the plain http guns — what the other samples carry. -/
+def handleLoop (kv : List (String × String)) (impl : String) : String × String :=
+  let (res, n) := implRes impl
+  match tokensOf kv with
+  | none => ("-", "fail:driver:unparsable sched")
+  | some tokens =>
+    let agg := getS (parseKV impl) "s"
+    let dtag := hexOfStr "discarded"
+    let entries : List (String × String × String × Nat) := (agg.splitOn ",").filterMap fun e =>
+      match e.splitOn "*" with
+      | [k, c] => (match k.splitOn ":" with | [t, p, nt] => some (t, p, nt, c.toNat?.getD 0) | _ => none)
+      | _ => none
+    let disc := entries.filter (·.1 == dtag)
+    let d := (disc.map (·.2.2.2)).sum
+    let discOk := disc.all fun (_, p, nt, _) => p == "0" && nt != "0"
+    let gun := getS kv "gun"
+    let steps := match gun with
+      | "http/scenario" | "http2/scenario" => (splitList (getS kv "steps") ";").length
+      | "grpc/scenario" => (splitList (getS kv "calls") ";").length
+      | _ => 1
+    let v0 := Spec.C19.judgeLoop tokens steps res n d discOk
+    let v := if v0 != "ok" then v0
+      else if gun == "http" || gun == "connect" || gun == "http2" then
+        let reqs := splitList (getS kv "reqs") ","
+        let truthTab := (List.range reqs.length).map fun i =>
+          (hexOfStr s!"r{i}", match (reqs[i]!).splitOn ":" with | [_, t] => t | _ => "f")
+        Spec.C19.judgeCarry ((dtag, "u") :: truthTab) agg
+      else v0
+    ("-", v)
+
 def handleRun (kv : List (String × String)) (impl : String) : String × String :=
+  if getS kv "disc" == "1" && (lookup kv "sched").isSome then handleLoop kv impl else
   let (res, n) := implRes impl
   let noCfg : AutoTagCfg := { enabled := false, uriElements := 2, noTagOnly := true }
   match getS kv "gun" with
